@@ -7,8 +7,9 @@ from engine_m import session as S
 def cmd_setup(args):
     t = time.time()
     S.ensure_mir('lightning')
+    S.ensure_mir('lightning-block-sync')
     S.ensure_oracle('debug')
-    S.ensure_mir('lightning-invoice') if False else None
+    S.ensure_oracle('debug', which='oracle_tu')
     from engine_k import runner as K
     rc = K.setup()
     print('setup done in %.1fs' % (time.time() - t))
